@@ -470,6 +470,9 @@ func (s *System) exec(a Action, p *Peer, line *TraceLine) (injected uint64) {
 		case "adduc":
 			var sc []model.UseCaseScenarioSupportType
 			for _, x := range strings.Split(a.str("sc"), ",") {
+				if x == "" { // no scenario given
+					continue
+				}
 				n, _ := strconv.Atoi(x)
 				sc = append(sc, model.UseCaseScenarioSupportType(n))
 			}
@@ -794,6 +797,8 @@ func (s *System) respCb2(k string) func(api.ResponseMessage) {
 }
 
 // (result callbacks are not compared by the stack: they are closures of one literal, i.e. distinct callbacks that share their code)
+//
+//go:noinline
 func (s *System) resCb(k string, cb int) func(api.ResponseMessage) {
 	return func(m api.ResponseMessage) { s.fired(k, cb, "res", m) }
 }
